@@ -33,7 +33,7 @@ NAMES = ["x", "y", "z", "t"]
 
 def bounds(tier):
     return {"max_ndim": 3 if tier == "quick" else 4, "axis_variants": 7, "axis_lengths": LENS,
-            "menu_size": "14 (+2 fractional near-label queries on numeric axes)", "tol_values": "0, quarter, half, one step, inf"}
+            "menu_size": "14 (+5 fractional near-label queries, on both sides of a label, scalar / list / ndarray, on numeric axes)", "tol_values": "0, quarter, half, one step, inf"}
 
 
 def menu(lab, kind, small=False):
@@ -46,7 +46,7 @@ def menu(lab, kind, small=False):
         m.append(["l", lab[1:] + lab[:1]])      # rotation: a permutation that is not its own inverse
     if kind in "if":   # fractional query hugging a label: must not be truncated / rounded onto it
         eps = 0.5 if kind == "i" else 0.125
-        m = m + [["s", lab[0] + eps], ["l", [lab[-1], lab[0] - eps]]]
+        m = m + [["s", lab[0] + eps], ["l", [lab[-1], lab[0] - eps]], ["l", [lab[0] + eps]], ["nd", [lab[-1] + eps, lab[0]]], ["s", lab[-1] - eps]]
     if small:
         return [m[0], m[1], m[2], m[4], m[5], m[7], m[9], m[11]] + (m[14:15] if kind in "if" else [])
     return m
